@@ -575,6 +575,8 @@ func exec(op string) (res string) {
 		return a
 	case "big", "bigx":
 		return execBig(w)
+	case "rxbig":
+		return execRxbig(w[1], byte(atoi(w[2])), w[3], atoi(w[4]))
 	case "nego":
 		return nego(w[1], w[2])
 	case "rx", "negoh", "negos":
@@ -1419,6 +1421,15 @@ func main() {
 	for _, c := range bigClasses {
 		op, ans, cls := genBig(r, c)
 		out.Case(op, ans, cls, true)
+	}
+	// 6d. compressed responses at the 256 MiB boundary through the real receive path of a connection
+	rxbigRun := []string{rxbigClasses[r.Intn(len(rxbigClasses))]}
+	if tier == "thorough" {
+		rxbigRun = append(append([]string{}, rxbigClasses...), "decodes-over-limit", "payload-over-limit", "payload-under-limit")
+	}
+	for _, c := range rxbigRun {
+		op, cls := genRxbig(r, c)
+		out.Case(op, exec(op), cls, true)
 	}
 	// 7. the destination lz4 Encode hands to the block encoder (model vs code; last: a tie, not an input)
 	for _, n := range threshLens(maxPow) {
